@@ -137,6 +137,8 @@ def run_case(case, policy=None, max_steps=20000):
             cfg = {'cls': frappy.io.BytesIO if bytes_mode else frappy.io.StringIO, 'description': 'x', 'uri': dev.uri}
             for k, v in case['io'].items():
                 cfg[k] = {'value': v}
+            if case.get('ident'):      # hand experiments only: checkHWIdent is not modelled
+                cfg['identification'] = [('ID', 'id.*')]
             node = Node({'io': cfg})
             io = node.modules['io']
             io._lock = LockProxy(io._lock, log)
